@@ -23,6 +23,7 @@ import (
 	"verifsim/fixtures"
 	"verifsim/gen"
 	"verifsim/ref/refbundle"
+	"verifsim/ref/refcbor"
 	"verifsim/ref/refmice"
 )
 
@@ -87,6 +88,9 @@ func addSignature(b *bundle.Bundle, signer *signature.Signer, rs int) error {
 
 func buildWorld(c *core.Ctx, base int64, tightWindows bool) *world {
 	w := &world{c: c, vouched: map[string]vouched{}}
+	if c.Chance("farDate", 1, 6) {
+		base = c.PickI64("dateBase", 1<<31, 1<<32, 1<<40, 1<<24) + c.I64("dateOff", -700000, 700000)
+	}
 	lb := &gen.LBundle{Order: map[string][]int{}}
 	lb.Version = c.PickStr("bundle.version", "b1", "b2")
 	n := c.Int("bundle.nex", 1, 5)
@@ -155,9 +159,17 @@ func (w *world) sign(reload bool) error {
 			b = nb
 		}
 		vu, _ := url.Parse("https://" + s.leaf.Hosts[0] + "/validity")
-		signer, err := signature.NewSigner(b.Version, w.chain(s), s.leaf.Key, vu, time.Unix(s.date, 0), time.Duration(s.duration)*time.Second)
+		dur := time.Duration(s.duration) * time.Second
+		if s.duration > 1<<32 {
+			dur = time.Hour // not representable as a Duration: Expires is set directly below
+		}
+		signer, err := signature.NewSigner(b.Version, w.chain(s), s.leaf.Key, vu, time.Unix(s.date, 0), dur)
 		if err != nil {
 			return fmt.Errorf("NewSigner %d: %v", i, err)
+		}
+		if s.duration > 1<<32 {
+			signer.SignedSubset.Expires = time.Unix(s.date+s.duration, 0)
+			c.Probe("lifetime of centuries")
 		}
 		signer.Algorithm, _ = verifhook.SigningAlgorithmForPrivateKey(s.leaf.Key, fixtures.ConstReader{B: s.entropy})
 		// record what this signer is about to vouch for
@@ -242,27 +254,43 @@ type clientResult struct {
 
 // client reads nothing: it is handed a bundle object and a clock reading.
 func (w *world) client(b *bundle.Bundle, t time.Time, what string, expectAll bool) clientResult {
+	res, _ := w.clientWith(nil, b, t, what, expectAll)
+	return res
+}
+
+// clientWith verifies every exchange of b; with a non-nil v the client keeps
+// using a Verifier it created earlier (history: results must not depend on
+// what that Verifier was asked before).
+func (w *world) clientWith(v *signature.Verifier, b *bundle.Bundle, t time.Time, what string, expectAll bool) (clientResult, *signature.Verifier) {
+	res, v := w.clientWith0(v, b, t, what, expectAll)
+	return res, v
+}
+
+func (w *world) clientWith0(v *signature.Verifier, b *bundle.Bundle, t time.Time, what string, expectAll bool) (res clientResult, vout *signature.Verifier) {
 	c := w.c
-	var res clientResult
-	var v *signature.Verifier
 	var err error
 	if b.Signatures == nil {
 		res.unsigned = len(b.Exchanges)
-		return res
+		return res, nil
 	}
-	pi, alloc := c.GuardAlloc("signature.NewVerifier", func() { v, err = signature.NewVerifier(b.Signatures, t, b.Version) })
-	if c.Oracle("C10", "C06") {
-		c.CheckTotal("signature.NewVerifier", len(w.file), pi, alloc)
+	var pi *core.PanicInfo
+	if v == nil {
+		var alloc uint64
+		pi, alloc = c.GuardAlloc("signature.NewVerifier", func() { v, err = signature.NewVerifier(b.Signatures, t, b.Version) })
+		if c.Oracle("C10", "C06") {
+			c.CheckTotal("signature.NewVerifier", len(w.file), pi, alloc)
+		}
 	}
+	vout = v
 	if pi != nil {
-		return res
+		return res, nil
 	}
 	if err != nil {
 		res.verifierErr = err
 		if expectAll && c.Oracle("C06") {
 			c.Violation("verifier-refused", "signature.NewVerifier", "honest signatures refused at t=%d (%s): %v", t.Unix(), what, err)
 		}
-		return res
+		return res, vout
 	}
 	// a verifier exists: every vouched subset passed the time checks, so t must be inside every honest signer's window
 	for _, e := range b.Exchanges {
@@ -303,6 +331,16 @@ func (w *world) client(b *bundle.Bundle, t time.Time, what string, expectAll boo
 			if e.Response.Status != vo.status || !sameMap(canon(e.Response.Header), vo.headers) || !bytes.Equal(r.VerifiedPayload, vo.body) {
 				c.Violation("accepted-altered-content", "Verifier.VerifyExchange", "exchange %q verified with content its signer did not vouch for (%s): status %d/%d headers %v/%v body %s/%s", u, what, e.Response.Status, vo.status, canon(e.Response.Header), vo.headers, core.Hex(r.VerifiedPayload), core.Hex(vo.body))
 			}
+			// the exchange that was accepted must itself carry the vouched content: decoded by
+			// the reference under its own (vouched) Digest header, its body is the vouched
+			// body - not merely "some earlier result". (A change that leaves the decoded
+			// content intact, e.g. in the unauthenticated record-size field of a
+			// single-record stream, is not an alteration of content.)
+			if top, ok := refmice.ParseHeader(refmice.Draft03, vo.headers["digest"]); ok {
+				if d := refmice.Decode(refmice.Draft03, e.Response.Body, top, 16384); !d.Complete || !bytes.Equal(d.Prefix, vo.body) {
+					c.Violation("accepted-altered-body", "Verifier.VerifyExchange", "exchange %q verified although its body does not decode to the vouched body (%s)", u, what)
+				}
+			}
 			if r.Authority == nil || r.Authority.Cert == nil || !bytes.Equal(r.Authority.Cert.Raw, s.leaf.DER) {
 				c.Violation("wrong-authority", "Verifier.VerifyExchange", "exchange %q: reported authority is not its signer's leaf certificate %s (%s)", u, s.leaf.Name, what)
 			}
@@ -311,7 +349,7 @@ func (w *world) client(b *bundle.Bundle, t time.Time, what string, expectAll boo
 			}
 		}
 	}
-	return res
+	return res, vout
 }
 
 func readBundle(c *core.Ctx, data []byte, plan core.ReaderPlan) (*bundle.Bundle, error) {
@@ -417,7 +455,7 @@ func TestClock(t *testing.T) {
 			}
 			if c.Chance("lifetime.over", 1, 4) {
 				i := c.Pick("lifetime.signer", len(w.signers))
-				w.signers[i].duration = c.PickI64("lifetime.value", 604801, 1209600)
+				w.signers[i].duration = c.PickI64("lifetime.value", 604801, 1209600, 9300000000, 1<<40, 1<<32)
 				c.Probe("lifetime > 604800")
 			}
 			if err := w.sign(false); err != nil {
@@ -516,10 +554,16 @@ func TestTamper(t *testing.T) {
 				c.Sig("%s", what)
 				return
 			}
+			var earlier *signature.Verifier
+			if class == "field" && c.Bool("reuseVerifier") {
+				// the client verified the untouched bundle first and keeps its Verifier
+				_, earlier = w.clientWith(nil, rb, tm, "before the edit", true)
+				c.Probe("verifier reused after an edit")
+			}
 			if class == "field" || class == "signatures" {
 				what = w.byzantine(c, rb, class)
 			}
-			res := w.client(rb, tm, what, class == "none")
+			res, _ := w.clientWith(earlier, rb, tm, what, class == "none")
 			switch {
 			case res.verifierErr != nil:
 				c.Outcome("verifier-refused")
@@ -539,7 +583,7 @@ func (w *world) byzantine(c *core.Ctx, b *bundle.Bundle, class string) string {
 		sg := b.Signatures
 		i := c.Pick("sig.subset", len(sg.VouchedSubsets))
 		vs := sg.VouchedSubsets[i]
-		op := c.PickStr("sig.op", "sig-bit", "signed-bit", "authority-index", "authorities-swap", "drop-subset", "dup-subset", "swap-sig", "signed-retime", "authority-drop")
+		op := c.PickStr("sig.op", "sig-bit", "signed-bit", "authority-index", "authorities-swap", "drop-subset", "dup-subset", "swap-sig", "signed-retime", "authority-drop", "malicious-signer", "malicious-signer")
 		switch op {
 		case "sig-bit":
 			if len(vs.Sig) > 0 {
@@ -568,6 +612,22 @@ func (w *world) byzantine(c *core.Ctx, b *bundle.Bundle, class string) string {
 			if len(sg.VouchedSubsets) >= 2 {
 				j := (i + 1) % len(sg.VouchedSubsets)
 				sg.VouchedSubsets[i].Sig, sg.VouchedSubsets[j].Sig = sg.VouchedSubsets[j].Sig, sg.VouchedSubsets[i].Sig
+			}
+		case "malicious-signer":
+			// a signer that holds a valid key signs a structurally hostile signed subset:
+			// a declared array / map count far beyond the data (the parser runs only after
+			// the signature verified, so byte-level damage never reaches it)
+			if i < len(w.signers) {
+				if ns, ok := hostileSubset(c, vs.Signed); ok {
+					sp := w.signers[i]
+					alg, _ := verifhook.SigningAlgorithmForPrivateKey(sp.leaf.Key, fixtures.ConstReader{B: sp.entropy})
+					msg := append(bytes.Repeat([]byte{0x20}, 64), []byte("Web Package 1 "+string(b.Version))...)
+					msg = append(append(msg, 0), ns...)
+					if sig, err := alg.Sign(msg); err == nil {
+						vs.Signed, vs.Sig = ns, sig
+						c.Probe("hostile signed subset with a valid signature")
+					}
+				}
 			}
 		case "signed-retime":
 			// re-encode the signed subset with a shifted window, keeping the old signature
@@ -644,6 +704,28 @@ func (w *world) byzantine(c *core.Ctx, b *bundle.Bundle, class string) string {
 	c.Fault("byzantine-field-edit")
 	c.Event("field edit %s on %v", op, e.Request.URL)
 	return "field:" + op
+}
+
+// hostileSubset rewrites one count inside an encoded signed subset (the
+// subset-hashes map head, or the first per-URL array head) to a huge value.
+func hostileSubset(c *core.Ctx, signed []byte) ([]byte, bool) {
+	it, err := refcbor.Decode(signed, 0)
+	if err != nil || it.Major != 5 {
+		return nil, false
+	}
+	for k := 0; k+1 < len(it.Elems); k += 2 {
+		if string(it.Elems[k].Bytes) != "subset-hashes" {
+			continue
+		}
+		m := it.Elems[k+1]
+		target := m
+		if len(m.Elems) >= 2 && c.Bool("hostile.array") {
+			target = m.Elems[1]
+		}
+		nv := c.PickU64("hostile.count", 1<<62+1, 1<<25+1, 1<<32+1, 1<<63+1, 1<<31-1, ^uint64(0))
+		return core.WidenCborField(signed, core.Field{Off: target.Off, Width: target.HeadLen - 1}, nv), true
+	}
+	return nil, false
 }
 
 // decodeRetime shifts date/expires inside an encoded signed subset by
